@@ -314,7 +314,7 @@ OVER_BUDGET = {'ref.f4t_f4t.copy_assign', 'ref.f4t_f4t.move_assign', 'ref.f4t_f4
 def vec_catalogue(tier):
     quick = [('c4 v4', [0]), ('f4', [0]), ('c8a8 v2 p4a8', [3, 4]), ('f2a4 p1', [1]), ('f4t', [0]), ('c4 f4t', [0]), ('f4m', [0]),
              # lists of integer / floating-point fields: vector-level comparison units only
-             ('f4u', [0]), ('c1 c1', [0]), ('c1 c1a2 c1', [0]), ('c1 c4a4', [0]), ('c2 v2u', [0]), ('c4a4 v2u', [0]), ('f4x', [0])]
+             ('f4u', [0]), ('f1u f1u', [0]), ('c1 c1', [0]), ('c1 c1a2 c1', [0]), ('c1 c4a4', [0]), ('c2 v2u', [0]), ('c4a4 v2u', [0]), ('f4x', [0])]
     if tier == 'quick':
         return quick
     more = [('c4 v4', [5]), ('f4', [10]), ('p4 p8a8', [0]), ('f3 f5a4 p2a2', [6]), ('f4a16 c4 v4a8', [9]), ('c4 v4x', [0])]
